@@ -248,7 +248,13 @@ package pubsub
 //@   ensures never-penalised: reason == RejectBlacklstedPeer || reason == RejectBlacklistedSource || reason == RejectValidationQueueFull ||
 //@        reason == RejectValidationThrottled || reason == RejectValidationIgnored ==> nInvalid() == 0
 //@   ensures failed-validation: reason == RejectValidationFailed ==> nInvalid() == 0 || nInvalid() >= 1
-//@   ensures undecided-only: reason == RejectValidationFailed && nInvalid() > 0 ==> lastret((*messageDeliveries).getRecord).status == deliveryInvalid
+//@   ensures undecided-only: reason == RejectValidationFailed && nInvalid() > 0 ==> lastret((*messageDeliveries).getRecord).status == deliveryInvalid &&
+//@        drStatusSeen[lastret((*messageDeliveries).getRecord)] == deliveryUnknown
+//@   ensures decided-record-left-alone: calls((*messageDeliveries).getRecord) > old(calls((*messageDeliveries).getRecord)) && drStatusSeen[lastret((*messageDeliveries).getRecord)] != deliveryUnknown ==>
+//@        nInvalid() == 0 && lastret((*messageDeliveries).getRecord).status == drStatusSeen[lastret((*messageDeliveries).getRecord)]
+//@   ensures verdict-recorded: calls((*messageDeliveries).getRecord) > old(calls((*messageDeliveries).getRecord)) && drStatusSeen[lastret((*messageDeliveries).getRecord)] == deliveryUnknown ==>
+//@        lastret((*messageDeliveries).getRecord).status == ite(reason == RejectValidationThrottled, deliveryThrottled, ite(reason == RejectValidationIgnored, deliveryIgnored, deliveryInvalid)) &&
+//@        (reason != RejectValidationThrottled && reason != RejectValidationIgnored ==> nInvalid() >= 1)
 //@   ensures released: !held(ps.Mutex)
 
 // DuplicateMessage: an invalid-delivery penalty iff the record says the message was invalid; a
@@ -279,6 +285,8 @@ package pubsub
 //@      (ps.params.Topics[t].MeshMessageDeliveriesThreshold - o.meshMessageDeliveries) * (ps.params.Topics[t].MeshMessageDeliveriesThreshold - o.meshMessageDeliveries), 0.0)
 //@ func (*peerScore).OnClosedOutboundStream
 //@   property C10 C13
+//@   ensures ip-tracking-released-with-the-stats: lin(p in ps.peerStats) && !(p in ps.peerStats) ==>
+//@        calls((*peerScore).removeIPs) == old(calls((*peerScore).removeIPs)) + 1 && lastarg((*peerScore).removeIPs, 1) == p
 //@   rmul-signs
 //@   modifies monitor(peerScore.Mutex), clock, scoreEpoch
 //@   loop 1 invariant retaining: scoreSep(ps) && held(ps.Mutex) && pstats == lin(ps.peerStats[p]) && p in ps.peerStats && ps.peerStats[p] == pstats &&
@@ -310,8 +318,16 @@ package pubsub
 //@      o.meshMessageDeliveries == dz(ps, lin(o.meshMessageDeliveries) * ps.params.Topics[t].MeshMessageDeliveriesDecay) &&
 //@      o.meshFailurePenalty == dz(ps, lin(o.meshFailurePenalty) * ps.params.Topics[t].MeshFailurePenaltyDecay) &&
 //@      o.invalidMessageDeliveries == dz(ps, lin(o.invalidMessageDeliveries) * ps.params.Topics[t].InvalidMessageDeliveriesDecay)
+// meshClock: at a refresh a mesh member's time in mesh is brought up to date (now - graft time) and
+// mesh-delivery scoring is activated once that exceeds the activation time (it is never
+// de-activated here); a non-member's clock is left alone.
+//@ spec fn meshClock(ps *peerScore, o *topicStats, t string, at int) bool = o.inMesh == lin(o.inMesh) && o.graftTime == lin(o.graftTime) &&
+//@      (lin(o.inMesh) ==> o.meshTime == at - lin(o.graftTime) &&
+//@          o.meshMessageDeliveriesActive == (lin(o.meshMessageDeliveriesActive) || o.meshTime > ps.params.Topics[t].MeshMessageDeliveriesActivation)) &&
+//@      (!lin(o.inMesh) ==> o.meshTime == lin(o.meshTime) && o.meshMessageDeliveriesActive == lin(o.meshMessageDeliveriesActive))
 //@ spec fn sameStats(o *topicStats) bool = o.firstMessageDeliveries == lin(o.firstMessageDeliveries) && o.meshMessageDeliveries == lin(o.meshMessageDeliveries) &&
-//@      o.meshFailurePenalty == lin(o.meshFailurePenalty) && o.invalidMessageDeliveries == lin(o.invalidMessageDeliveries)
+//@      o.meshFailurePenalty == lin(o.meshFailurePenalty) && o.invalidMessageDeliveries == lin(o.invalidMessageDeliveries) &&
+//@      o.inMesh == lin(o.inMesh) && o.meshTime == lin(o.meshTime) && o.meshMessageDeliveriesActive == lin(o.meshMessageDeliveriesActive) && o.graftTime == lin(o.graftTime)
 // refreshScores (retention, C13): statistics of a disconnected peer are dropped exactly when its
 // retention period has expired (now > expire); until then the retained counters are not decayed;
 // nobody else is dropped and nobody is added. (The decay arithmetic of connected peers is not
@@ -331,6 +347,8 @@ package pubsub
 //@        lin(ps.peerStats[q].topics[t]).meshFailurePenalty == lin(ps.peerStats[q].topics[t].meshFailurePenalty) &&
 //@        lin(ps.peerStats[q].topics[t]).invalidMessageDeliveries == lin(ps.peerStats[q].topics[t].invalidMessageDeliveries) &&
 //@        lin(ps.peerStats[q]).behaviourPenalty == lin(ps.peerStats[q].behaviourPenalty)
+//@   loop 1 step ip-tracking-released-with-the-stats: iter(p in ps.peerStats) && !(p in ps.peerStats) ==>
+//@        calls((*peerScore).removeIPs) == iter(calls((*peerScore).removeIPs)) + 1 && lastarg((*peerScore).removeIPs, 1) == p && lastarg((*peerScore).removeIPs, 2) == pstats.ips
 //@   loop 2 invariant held: held(ps.Mutex) && scoreSep(ps) && now == lin(now) && now == lastret(time.Now) && ps.params == lin(ps.params)
 //@   loop 2 invariant status-kept: forall o *peerStats :: lin(allocated(o)) ==> o.connected == lin(o.connected) && o.expire == lin(o.expire) && o.topics == lin(o.topics)
 //@   loop 2 invariant tables-kept: forall q string, t string :: lin(q in ps.peerStats) ==> (t in lin(ps.peerStats[q]).topics) == lin(t in ps.peerStats[q].topics) &&
@@ -341,11 +359,11 @@ package pubsub
 //@        lin(ps.peerStats[q].topics[t]).invalidMessageDeliveries == lin(ps.peerStats[q].topics[t].invalidMessageDeliveries) &&
 //@        lin(ps.peerStats[q]).behaviourPenalty == lin(ps.peerStats[q].behaviourPenalty)
 //@   loop 1 invariant decayed: forall q string, t string :: lin(q in ps.peerStats) && lin(ps.peerStats[q].connected) && lin(t in ps.peerStats[q].topics) && t in ps.params.Topics ==>
-//@        ($visited[q] ==> decayedStats(ps, lin(ps.peerStats[q].topics[t]), t)) && (!$visited[q] ==> sameStats(lin(ps.peerStats[q].topics[t])))
+//@        ($visited[q] ==> (decayedStats(ps, lin(ps.peerStats[q].topics[t]), t) && meshClock(ps, lin(ps.peerStats[q].topics[t]), t, now))) && (!$visited[q] ==> sameStats(lin(ps.peerStats[q].topics[t])))
 //@   loop 1 invariant penalty-decayed: forall q string :: lin(q in ps.peerStats) && lin(ps.peerStats[q].connected) ==>
 //@        lin(ps.peerStats[q]).behaviourPenalty == ite($visited[q], dz(ps, lin(ps.peerStats[q].behaviourPenalty) * ps.params.BehaviourPenaltyDecay), lin(ps.peerStats[q].behaviourPenalty))
 //@   loop 2 invariant decayed: forall q string, t string :: lin(q in ps.peerStats) && lin(ps.peerStats[q].connected) && lin(t in ps.peerStats[q].topics) && t in ps.params.Topics ==>
-//@        ((q != p && $visited#1[q]) || (q == p && $visited[t]) ==> decayedStats(ps, lin(ps.peerStats[q].topics[t]), t)) &&
+//@        ((q != p && $visited#1[q]) || (q == p && $visited[t]) ==> (decayedStats(ps, lin(ps.peerStats[q].topics[t]), t) && meshClock(ps, lin(ps.peerStats[q].topics[t]), t, now))) &&
 //@        (!((q != p && $visited#1[q]) || (q == p && $visited[t])) ==> sameStats(lin(ps.peerStats[q].topics[t])))
 //@   loop 2 invariant penalty-decayed: forall q string :: lin(q in ps.peerStats) && lin(ps.peerStats[q].connected) ==>
 //@        lin(ps.peerStats[q]).behaviourPenalty == ite($visited#1[q] && q != p, dz(ps, lin(ps.peerStats[q].behaviourPenalty) * ps.params.BehaviourPenaltyDecay), lin(ps.peerStats[q].behaviourPenalty))
@@ -361,7 +379,7 @@ package pubsub
 //@        lin(ps.peerStats[q].topics[t]).invalidMessageDeliveries == lin(ps.peerStats[q].topics[t].invalidMessageDeliveries) &&
 //@        lin(ps.peerStats[q]).behaviourPenalty == lin(ps.peerStats[q].behaviourPenalty)
 //@   ensures connected-decayed: forall q string, t string :: lin(q in ps.peerStats) && lin(ps.peerStats[q].connected) && lin(t in ps.peerStats[q].topics) && t in ps.params.Topics ==>
-//@        decayedStats(ps, lin(ps.peerStats[q].topics[t]), t)
+//@        (decayedStats(ps, lin(ps.peerStats[q].topics[t]), t) && meshClock(ps, lin(ps.peerStats[q].topics[t]), t, now))
 //@   ensures penalty-decayed: forall q string :: lin(q in ps.peerStats) && lin(ps.peerStats[q].connected) ==>
 //@        lin(ps.peerStats[q]).behaviourPenalty == dz(ps, lin(ps.peerStats[q].behaviourPenalty) * ps.params.BehaviourPenaltyDecay)
 //@   ensures released: !held(ps.Mutex)
@@ -426,6 +444,7 @@ package pubsub
 //@   requires msg: msg != nil && msg.Message != nil && ps.idGen != nil
 //@   noframe
 //@   loop 1 invariant crediting: held(ps.Mutex) && scoreSep(ps) && drec == lastret((*messageDeliveries).getRecord)
+//@   loop 1 step every-other-early-forwarder-credited: calls((*peerScore).markDuplicateMessageDelivery) - iter(calls((*peerScore).markDuplicateMessageDelivery)) == ite(p != msg.ReceivedFrom, 1, 0)
 //@   at call markFirstMessageDelivery assert forwarder-credited: $arg1 == msg.ReceivedFrom && $arg2 == topicOf(msg)
 //@   at call markDuplicateMessageDelivery assert early-forwarders-inside-window: $arg1 != msg.ReceivedFrom && $arg1 in drec.peers && $arg2 == msg && $arg3 == 0
 //@   ensures one-first-delivery: calls((*peerScore).markFirstMessageDelivery) == old(calls((*peerScore).markFirstMessageDelivery)) + 1
